@@ -127,6 +127,26 @@ def c12_classes(lines):
                 guard["gap-with-target-whose-rendering-extends-the-queried-one"] += 1
             if gaps:
                 guard["gap-with-missing-sequences"] += 1
+        elif ev == "GapBackfill":
+            st = (a["st"]["ec"], a["st"]["em"], a["st"]["tc"])
+            own = {o[3] for o in cur if o[:3] == st}
+            plan = a.get("plan", {})
+            faults = sorted({v for v in plan.values() if v not in ("ok", "404")})
+            nfill = len(a.get("fills", []))
+            classes.add((ev, bucket(len(own)), bucket(nfill), tuple(faults), bool(s.get("err")), bucket(len(s.get("missing", [])))))
+            guard["backfill-call"] += 1
+            if nfill:
+                guard["backfill-filled-a-gap"] += 1
+            if faults:
+                guard["backfill-node-misbehaved"] += 1
+                if not s.get("err"):
+                    guard["backfill-node-misbehaved-call-succeeded"] += 1
+            if "500" in faults:
+                guard["backfill-node-answered-500"] += 1
+            if s.get("err"):
+                guard["backfill-call-failed-as-a-whole"] += 1
+            for v in a.get("fills", []):
+                cur[fs.key(v["id"])] = v["tag"]
         elif ev == "GovBatch":
             seqs = set(a["seqs"])
             hit = [o for o in cur if (o[0], o[1]) == fs.GOV and o[3] in seqs]
@@ -145,7 +165,8 @@ def c12_classes(lines):
 
 NEEDED_C12 = ["store-new", "store-overwrite", "get-found", "get-absent", "get-absent-with-prefix-related-neighbour", "gap-empty-stream",
               "gap-nonempty-stream", "gap-with-target-whose-rendering-extends-the-queried-one", "gap-with-missing-sequences",
-              "govbatch-nonempty", "nongovbatch-nonempty"]
+              "govbatch-nonempty", "nongovbatch-nonempty", "backfill-filled-a-gap", "backfill-node-misbehaved",
+              "backfill-node-misbehaved-call-succeeded", "backfill-node-answered-500"]
 
 
 def run_c12(prop, tier, replay):
